@@ -535,6 +535,19 @@ func c32GenJob(r *Rand, id int) c32Job {
 		return job
 	}
 	job.Mode = "run"
+	if r.Chance(5) {
+		// The FIFO of a process substitution removed before its goroutine opens it (the error path
+		// fixed by f9b9e42).  When the goroutine is already blocked in open(2) it stays there and a
+		// `wait` would hang (C31), so these programs wait for nothing and end with `exit`.
+		stmts := []string{c32Preamble}
+		for i := 2 + r.Intn(4); i > 0; i-- {
+			stmts = append(stmts, r.Pick([]string{"rm <(echo gone) 2>/dev/null", "rm <(f x) 2>/dev/null", "rm >(cat) 2>/dev/null"})+"; "+c32Simple(r)+" 2>/dev/null")
+			stmts = append(stmts, r.Pick([]string{"exec 2>/dev/null", "arr+=(r)", "echo err >&2", "{ echo a; } 2>&1"}))
+		}
+		stmts = append(stmts, "exit 0")
+		job.Progs = []string{strings.Join(stmts, "\n")}
+		return job
+	}
 	var stmts []string
 	stmts = append(stmts, c32Preamble)
 	for i := 1 + r.Intn(4); i > 0; i-- {
@@ -552,10 +565,6 @@ func c32GenJob(r *Rand, id int) c32Job {
 		case 5:
 			stmts = append(stmts, "y=$( "+c32BodyC(r, 0, false)+"\n)\n"+c32Body(r, 1))
 		case 6:
-			// `rm <(echo x)` is not generated: removing the FIFO before the process substitution's
-			// goroutine opens it makes that goroutine report through the *parent's* r.errf (known
-			// finding C32-procsubst-errf, replayed from the corpus), and when the goroutine is already
-			// blocked in open(2) the program hangs in `wait`
 			stmts = append(stmts, "cat <(echo kept) >/dev/null; echo x 2>/dev/null")
 		default:
 			stmts = append(stmts, c32Body(r, 0))
